@@ -287,7 +287,7 @@ def check_wild(recipe, ctx):
 
 SUBS = [
     Sub('delete', check, gen=gen, quick=5000, thorough=15000,
-        floors={'exp-ok': 0.2, 'exp-err-final': 0.05, 'exp-err-parent': 0.05, 'spelling-str': 0.1, 'spelling-t': 0.02}),
+        floors={'exp-ok': 0.15, 'exp-err-final': 0.05, 'exp-err-parent': 0.05, 'spelling-str': 0.1, 'spelling-t': 0.02}),
     Sub('wild', check_wild, gen=gen_wild, quick=1500, thorough=5000, floors={'wild-2': 0.1, 'wild-3': 0.1}),
     Sub('registered', check_registered, gen=gen_registered, quick=300, thorough=1000),
 ]
